@@ -102,12 +102,13 @@ type relFact struct {
 
 // Fn is the per-function view.
 type Fn struct {
-	E    *Engine
-	fn   *ssa.Function
-	F    *symx.Fn
-	Q    *interval.Q
-	rel  []relFact
-	busy map[string]bool
+	E       *Engine
+	fn      *ssa.Function
+	F       *symx.Fn
+	Q       *interval.Q
+	rel     []relFact
+	busy    map[string]bool
+	subBusy map[*ssa.BinOp]bool
 }
 
 func (e *Engine) Of(fn *ssa.Function) *Fn {
@@ -531,6 +532,13 @@ func (c *Fn) lt(i ssa.Value, L string, strict bool, at *ssa.BasicBlock, d int) b
 			if c.holdsOnEdge(c.F.E(ed), L, strict, p, v.Block()) {
 				continue
 			}
+			// a descending counter: phi - k (k >= 0) stays below whatever the
+			// phi is below; no wrap-around while the phi is non-negative there
+			if bo, ok := ed.(*ssa.BinOp); ok && bo.X == ssa.Value(v) {
+				if k, isK := ssau.ConstInt(bo.Y); isK && ((bo.Op == token.SUB && k >= 0) || (bo.Op == token.ADD && k <= 0)) && k > -1<<32 && k < 1<<32 && c.NonNeg(v, bo.Block()) {
+					continue
+				}
+			}
 			// evaluate at the end of the predecessor: facts of its own out-edges do not count
 			if !c.ltEnd(ed, L, strict, p, d+1) {
 				return false
@@ -707,6 +715,17 @@ func (c *Fn) NonNeg(i ssa.Value, at *ssa.BasicBlock) bool {
 	}
 	if c.E.NonNegOf != nil && c.E.NonNegOf(c, i) {
 		return true
+	}
+	// x - y with 0 <= y <= x (no wrap-around: the difference lies in [0, x])
+	if bo, ok := i.(*ssa.BinOp); ok && bo.Op == token.SUB && !c.subBusy[bo] {
+		if c.subBusy == nil {
+			c.subBusy = map[*ssa.BinOp]bool{}
+		}
+		c.subBusy[bo] = true
+		defer delete(c.subBusy, bo)
+		if c.NonNeg(bo.Y, at) && c.NonNeg(bo.X, at) && c.leqVals(bo.Y, bo.X, at) {
+			return true
+		}
 	}
 	return false
 }
